@@ -51,7 +51,7 @@ func (c19) Thresholds(tier string) map[string]int64 {
 }
 
 func (c19) Rule() string {
-	return "case = 24 finite doubles x with |x| < 2^52 drawn from the classes {" + strings.Join(c19Classes, ", ") + "}, pre-loaded into the variable store (no literal printing involved), and one script that captures, through a raw host function, the typed results of floor, ceil, inc, dec, integer, decimal, round, round_places(x,n) for a PRNG n in 0..8, number(string(x)), number(x), string(string(x)), bool(string(b)), bool(b) for each of them; plus two scripts converting a string that is neither a number nor a boolean (must be an error). Oracle: the inequalities of the property evaluated exactly on float64 (integrality, floor<=x<floor+1, ceil-1<x<=ceil, inc = least integer > x, dec = greatest integer < x, integer truncates toward zero, integer+decimal == x, |round-x|<=0.5, number(string(x)) == x numerically, identities); round_places: |r-x| <= 0.5*10^-n + 2 ulp(x), computed with math/big rationals. Non-trivial: x is non-integral, a half-way case, adjacent to an integer, or a signed zero. Distinct by the bit pattern of x."
+	return "case = 24 finite doubles x with |x| < 2^52 drawn from the classes {" + strings.Join(c19Classes, ", ") + "}, pre-loaded into the variable store (no literal printing involved), and one script that captures, through a raw host function, the typed results of floor, ceil, inc, dec, integer, decimal, round, round_places(x,n) for a PRNG n in 0..8, number(string(x)), number(x), string(string(x)), bool(string(b)), bool(b) for each of them; plus two scripts converting a string that is neither a number nor a boolean (must be an error). Oracle: the inequalities of the property evaluated exactly in rational arithmetic (math/big; a float64 comparison would accept round(0.49999999999999994) = 1, because 1 - x rounds to 0.5) (integrality, floor<=x<floor+1, ceil-1<x<=ceil, inc = least integer > x, dec = greatest integer < x, integer truncates toward zero, integer+decimal == x, |round-x|<=0.5, number(string(x)) == x numerically, identities); round_places: |r-x| <= 0.5*10^-n + 2 ulp(x), computed with math/big rationals. Non-trivial: x is non-integral, a half-way case, adjacent to an integer, or a signed zero. Distinct by the bit pattern of x."
 }
 
 func (c19) Assumptions() []string {
@@ -79,6 +79,9 @@ func c19Value(r *core.Rand) (float64, string) {
 		return sign(float64(r.U64()%(1<<uint(r.Range(1, 40)))) + 0.5), cl
 	case "next-to-half-way":
 		x := float64(r.U64()%(1<<uint(r.Range(1, 30)))) + 0.5
+		if r.Chance(1, 10) {
+			x = 0.5 // the predecessor of 0.5 is the classic floor(x+0.5) trap
+		}
 		if r.Bool() {
 			return sign(math.Nextafter(x, math.Inf(1))), cl
 		}
@@ -205,27 +208,38 @@ func (p c19) Run(c *core.Ctx) {
 			c.Feature("contract-checks")
 			return v.N, true
 		}
-		if v, ok := num(1, "floor"); ok && !(isInt(v) && v <= x && x < v+1) {
+		lt := func(a, b *big.Rat) bool { return a.Cmp(b) < 0 }
+		le := func(a, b *big.Rat) bool { return a.Cmp(b) <= 0 }
+		one := big.NewRat(1, 1)
+		plus1 := func(v float64) *big.Rat { return new(big.Rat).Add(ratOf(v), one) }
+		minus1 := func(v float64) *big.Rat { return new(big.Rat).Sub(ratOf(v), one) }
+		X := ratOf(x)
+		if v, ok := num(1, "floor"); ok && !(isInt(v) && le(ratOf(v), X) && lt(X, plus1(v))) {
 			bad(i, "floor", got[base+1], "need integer with floor <= x < floor+1")
 		}
-		if v, ok := num(2, "ceil"); ok && !(isInt(v) && v-1 < x && x <= v) {
+		if v, ok := num(2, "ceil"); ok && !(isInt(v) && lt(minus1(v), X) && le(X, ratOf(v))) {
 			bad(i, "ceil", got[base+2], "need integer with ceil-1 < x <= ceil")
 		}
-		if v, ok := num(3, "inc"); ok && !(isInt(v) && v > x && v-1 <= x) {
+		if v, ok := num(3, "inc"); ok && !(isInt(v) && lt(X, ratOf(v)) && le(minus1(v), X)) {
 			bad(i, "inc", got[base+3], "need the least integer greater than x")
 		}
-		if v, ok := num(4, "dec"); ok && !(isInt(v) && v < x && v+1 >= x) {
+		if v, ok := num(4, "dec"); ok && !(isInt(v) && lt(ratOf(v), X) && le(X, plus1(v))) {
 			bad(i, "dec", got[base+4], "need the greatest integer less than x")
 		}
 		iv, ok5 := num(5, "integer")
-		if ok5 && !(isInt(iv) && math.Abs(iv) <= math.Abs(x) && math.Abs(x)-math.Abs(iv) < 1 && (iv == 0 || (iv < 0) == (x < 0))) {
+		if ok5 && !(isInt(iv) && math.Abs(iv) <= math.Abs(x) && new(big.Rat).Sub(ratOf(math.Abs(x)), ratOf(math.Abs(iv))).Cmp(big.NewRat(1, 1)) < 0 && (iv == 0 || (iv < 0) == (x < 0))) {
 			bad(i, "integer", got[base+5], "need truncation toward zero")
 		}
-		if dv, ok := num(6, "decimal"); ok && ok5 && !(iv+dv == x) {
+		if dv, ok := num(6, "decimal"); ok && ok5 && new(big.Rat).Add(ratOf(iv), ratOf(dv)).Cmp(ratOf(x)) != 0 {
 			bad(i, "decimal", got[base+6], fmt.Sprintf("need integer(x)+decimal(x) == x, integer(x) = %v", iv))
 		}
-		if v, ok := num(7, "round"); ok && !(isInt(v) && math.Abs(v-x) <= 0.5) {
-			bad(i, "round", got[base+7], "need an integer within 0.5 of x")
+		if v, ok := num(7, "round"); ok {
+			// exact: |round(x) - x| <= 1/2 in rational arithmetic (in float64, 1 - 0.49999999999999994 rounds to 0.5)
+			d := new(big.Rat).Sub(ratOf(v), ratOf(x))
+			d.Abs(d)
+			if !isInt(v) || d.Cmp(big.NewRat(1, 2)) > 0 {
+				bad(i, "round", got[base+7], "need an integer within 0.5 of x (exact comparison); |round(x)-x| = "+d.FloatString(25))
+			}
 		}
 		if v, ok := num(8, "round_places"); ok {
 			diff := new(big.Rat).Sub(ratOf(v), ratOf(x))
